@@ -18,7 +18,7 @@ HARD REQUIREMENTS
 1. With your change applied the package still imports, and the existing test suite gives exactly the baseline result. Baseline on the unmodified tree (offline sandbox, no D-Bus daemon): 164 passed, 3 failed (tests/test_authentication.py::DBusCookieCookieHandlingTester x3 - they always fail here), 97 skipped. Run the suite ONLY like this (the flock matters: the suite binds a fixed socket name and several people share this machine):
      cd {wt} && flock /tmp/txdbus-pytest.lock /venv/bin/python -m pytest -q -p no:cacheprovider tests
    The set of passing tests must be identical with and without your change.
-2. Write a demonstration {wt}/_seed/demo.py: a small stand-alone program (run as: cd {wt} && /venv/bin/python _seed/demo.py) that exercises real txdbus code (it may drive internal classes directly with fake transports/protocols; it needs no D-Bus daemon and no network) and exits 0 when the property holds for the scenario it tries and exits non-zero (with a short message saying what went wrong) when it is violated. It MUST exit 0 on the unmodified tree and non-zero with your change applied. Verify both yourself (use `git stash` / `git stash pop`, or `git diff > p; git checkout -- txdbus; ...; git apply p`).
+2. Write a demonstration {wt}/_seed/demo.py: a small stand-alone program (run as: cd {wt} && /venv/bin/python _seed/demo.py) that exercises real txdbus code (it may drive internal classes directly with fake transports/protocols; it needs no D-Bus daemon and no network) and exits 0 when the property holds for the scenario it tries and exits non-zero (with a short message saying what went wrong) when it is violated. It MUST exit 0 on the unmodified tree and non-zero with your change applied. Verify both yourself (use `git diff -- txdbus > _seed/p.diff; git checkout -- txdbus; ...; git apply _seed/p.diff`; never use `git stash`: the stash is shared with other worktrees).
 3. Save the change as {wt}/_seed/patch.diff (output of: cd {wt} && git diff -- txdbus), and leave the change applied in the worktree.
 4. Write {wt}/_seed/meta.json with keys: "property" ("{pid}"), "summary" (one sentence: what the change does), "needs_to_manifest" (what specific input / sequence / interleaving is needed), "files" (list of files changed), "why_tests_miss_it" (one sentence), "commands_run" (the commands you used to verify: suite result with the change, demo result without and with).
 Do not commit anything. Do not modify files under tests/. Keep the change small (typically 1-10 lines). When you are done, reply with a 5-line summary (what you changed, where, what it needs to manifest, suite result, demo results).""")
